@@ -88,6 +88,17 @@ add('C12', 'model_checking',
     'resume, and TLC compares totals and lists across the modes.',
     TRUSTED, 'TLA+ spec + TLC trace validation of real runs, cross-mode relation checked by TLC', 'DESIGN.md 5/C12')
 
+add('C03', 'model_checking',
+    'Selected(w,o) is defined in Selection.tla / Filter.tla (nearest declaration, level '
+    'predicate, -t / -m / --layer acceptance, -u / -f); Runner.tla is model-checked for '
+    'AllRun (every runnable test exactly once per iteration, in exactly one process). '
+    'Every generated (world, options) is run as a bundle - --list-tests, sequential, -j N, '
+    'forced resume - and TLC validates each trace (no unselected test, none twice, none '
+    'missing, children only their layer, listing = selected set per layer, listing runs no '
+    'code) and the bundle (listing order = executed order per layer, same executed set).',
+    TRUSTED + ' Regex matching is an environment fact (re.search) passed to TLC as match bits.',
+    'TLA+ spec + TLC trace validation of real runs, cross-mode relation checked by TLC', 'DESIGN.md 5/C03')
+
 NOT_YET = {
 }
 
